@@ -14,13 +14,24 @@ PROVED (about the tokenizer's numbering, for every text and ordering):
 Together with `Thm/C01` (the diagram denotes the formula over ids) and `Thm/C02` (ordered by
 id) the answer under any ordering denotes the formula under that numbering.
 
-FULL STATEMENT (not proved): `meaning_invariant` — the function *of names* denoted under an
-ordering equals the one under the default order (needs `Sem` invariance under injective
-renaming of ids); and `export_reimport`.  Both are checked by the correspondence run
-(truth table by name on every generated case; -r / -o round trip through the real binary).
+ * `meaning_invariant` (the FULL STATEMENT of the first sentence): for one text under two orderings
+   (each with distinct ids per name), the two answers take the same value under assignments that read
+   every variable's value from its *name* — "the answer denotes the same function of the same named
+   variables".  Proof: the two token lists differ only in ids (`tokenize_lockstep`), the ids
+   correspond one-to-one (`ids_injective` twice), the correspondence extends to a bijection of all
+   ids (`exists_bij_of_pairs`), the grammar does not look at ids so the second tree is the first
+   one renamed (`sub_rename` + parser completeness), and the documented meaning is invariant under
+   renaming all ids, bound ones included (`sem_rename`); both answers denote their trees (C01).
+
+Not proved: `export_reimport` (the `-r` output fed back with `-o` reproduces the identical table):
+checked by the correspondence run through the real binary on every generated case.
 -/
 import Rsbdd.Proofs.VarIds
 import Rsbdd.Model.Cli
+import Rsbdd.Proofs.Rename
+import Rsbdd.Proofs.TableTotal
+import Rsbdd.Proofs.Termination
+import Rsbdd.Thm.C01
 
 namespace Rsbdd.C11
 
@@ -117,5 +128,91 @@ theorem readOrdering_ok {text : List Ch} {ord : List (String × Nat)}
 -- non-vacuity: an ordering that reverses two names and lists an unused one
 example : tokenize [⟨'a', .word⟩, ⟨'&', .other⟩, ⟨'b', .word⟩, ⟨'&', .other⟩, ⟨'c', .word⟩] [("b", 0), ("zz", 1), ("a", 2)] =
     some [.var "a" 2, .and, .var "b" 0, .and, .var "c" 3, .eof] := by rfl
+
+
+open BDD Formula Parser Grammar
+
+/-- the pairs (id under the first ordering, id under the second ordering) of the text's variable names -/
+def idPairs (ts1 ts2 : List Token) : List (Nat × Nat) :=
+  ts1.flatMap (fun t => match t with
+    | .var n i => ts2.filterMap (fun t2 => match t2 with
+      | .var n' j => if n = n' then some (i, j) else none
+      | _ => none)
+    | _ => [])
+
+theorem mem_idPairs {ts1 ts2 : List Token} {i j : Nat} :
+    (i, j) ∈ idPairs ts1 ts2 ↔ ∃ n, Token.var n i ∈ ts1 ∧ Token.var n j ∈ ts2 := by
+  simp only [idPairs, List.mem_flatMap]
+  constructor
+  · rintro ⟨t, ht, h⟩
+    cases t <;> simp at h
+    rename_i n i'
+    obtain ⟨t2, ht2, h2⟩ := h
+    cases t2 <;> simp at h2
+    rename_i n' j'
+    obtain ⟨rfl, rfl, rfl⟩ := h2
+    exact ⟨n, ht, ht2⟩
+  · rintro ⟨n, h1, h2⟩
+    refine ⟨_, h1, ?_⟩
+    simp only [List.mem_filterMap]
+    exact ⟨_, h2, by simp⟩
+
+/-- C11, the meaning: whatever the two orderings, the two answers denote the same function of the
+same named variables.  `ν` gives a truth value to every name; `σ₁`, `σ₂` are any assignments of ids
+that read a variable's value from its name under the respective numbering. -/
+theorem meaning_invariant {cs : List Ch} {o1 o2 : List (String × Nat)} {ts1 ts2 : List Token}
+    {f1 f2 : Formula} {b1 b2 : BDD} {i1 u1 i2 u2 : Nat}
+    (ho1 : OrderingOk o1) (ho2 : OrderingOk o2)
+    (ht1 : tokenize cs o1 = some ts1) (ht2 : tokenize cs o2 = some ts2)
+    (hp1 : parseFormula ts1 = some f1) (hp2 : parseFormula ts2 = some f2)
+    (hg1 : GoodF f1) (hg2 : GoodF f2)
+    (he1 : evalF i1 u1 f1 = some b1) (he2 : evalF i2 u2 f2 = some b2)
+    (ν : String → Bool) (σ1 σ2 : Asg)
+    (h1 : ∀ n i, Token.var n i ∈ ts1 → σ1 i = ν n) (h2 : ∀ n j, Token.var n j ∈ ts2 → σ2 j = ν n) :
+    eval b1 σ1 = eval b2 σ2 := by
+  have hinj1 := tokenize_ids_injective ho1 ht1
+  have hinj2 := tokenize_ids_injective ho2 ht2
+  -- the correspondence of ids extends to a bijection
+  obtain ⟨π, hπ⟩ := exists_bij_of_pairs (idPairs ts1 ts2) (by
+    rintro ⟨i, j⟩ hp ⟨i', j'⟩ hq
+    obtain ⟨n, a1, a2⟩ := mem_idPairs.mp hp
+    obtain ⟨n', b1, b2⟩ := mem_idPairs.mp hq
+    exact (hinj1 n i n' i' a1 b1).symm.trans (hinj2 n j n' j' a2 b2))
+  have hπ' : ∀ n i j, Token.var n i ∈ ts1 → Token.var n j ∈ ts2 → π.f i = j :=
+    fun n i j a b => hπ (i, j) (mem_idPairs.mpr ⟨n, a, b⟩)
+  -- the second token list is the first one renamed
+  have hts : ts2 = ts1.map (renTok π.f) := map_renTok_of_lockstep π.f ts1 ts2 (tokenize_lockstep ht1 ht2) hπ'
+  -- hence the second tree is the first one renamed
+  obtain ⟨pre, hpre, hsub⟩ := parse_text_sound ht1 hp1
+  have hd2 : Derives ts2 (renameF π.f f1) := by
+    refine ⟨pre.map (renTok π.f), ?_, sub_rename π.f hsub⟩
+    rw [hts, hpre]; simp [renTok]
+  have hf2 : f2 = renameF π.f f1 := by
+    have := parseFormula_complete hd2
+    rw [hp2] at this; exact Option.some.inj this
+  have hnl := sub_noLeaf hsub
+  -- the first answer only looks at ids of the text
+  have hsupp : ∀ z ∈ support b1, ∃ n, Token.var n z ∈ ts1 := by
+    intro z hz
+    have hfv := ((support_free_aux i1 u1).1 f1 b1 (ordLeaves_of_noLeaf f1 hnl) he1).2 z hz
+    obtain ⟨n, hn⟩ := sub_fv_tok z hsub hfv
+    exact ⟨n, by rw [hpre]; simp [hn]⟩
+  have e1 : eval b1 σ1 = eval b1 (fun v => σ2 (π.f v)) := by
+    apply eval_congr_support
+    intro z hz
+    obtain ⟨n, hn⟩ := hsupp z hz
+    -- the same name has some id under the second ordering
+    have : ∃ j, Token.var n j ∈ ts2 := by
+      rw [hts]
+      exact ⟨π.f z, List.mem_map.mpr ⟨_, hn, rfl⟩⟩
+    obtain ⟨j, hj⟩ := this
+    rw [h1 n z hn, hπ' n z j hn hj, h2 n j hj]
+  have s1 := (C01.evalF_sound i1 u1 f1 hg1 b1 he1).2 (fun v => σ2 (π.f v))
+  have s2 := (C01.evalF_sound i2 u2 f2 hg2 b2 he2).2 σ2
+  have sr := sem_rename π f1 hnl FEnv.empty σ2
+  rw [trEnv_empty, ← hf2] at sr
+  rw [e1, Bool.eq_iff_iff]
+  exact s1.trans (sr.symm.trans s2.symm)
+
 
 end Rsbdd.C11
